@@ -210,7 +210,7 @@ func (g *ValGen) JSONTree(depth int) any {
 	return obj
 }
 
-var hostileKeys = []string{"extra", "x-key", "zz_top", "Extra Key", "k\"q", "k\\b", "ключ", "0", "a\nb", "tab\tkey", "<k>", ""}
+var hostileKeys = []string{"extra", "x-key", "zz_top", "Extra Key", "k\"q", "k\\b", "ключ", "0", "a\nb", "tab\tkey", "<k>", "", "esc\x1b[0m", "del\x7f", "bel\a", "nul\x00", "vt\v", "tag\U000E0001", "ls\u2028"}
 
 func (g *ValGen) mapKey(declared map[string]bool, used map[string]bool) string {
 	for i := 0; ; i++ {
